@@ -20,6 +20,8 @@ for line in open('/verif/properties.jsonl'):
 assert prop
 N_CHANGES = 'SIX' if rnd == '4' else 'THREE'
 N_RANGE = '1..6' if rnd == '4' else '1..3'
+if rnd == '5':
+    EXTRA = '''\n\nSTYLE FOR THIS ROUND: each change must consist of TWO (or three) COOPERATING EDITS IN DIFFERENT FUNCTIONS - preferably in different files - where each edit on its own is behaviour-preserving (a refactoring, a new helper, a renamed or re-ordered argument, a moved statement, a changed default that is always overridden, a cache that is always invalidated) and only their combination breaks the property. Say in the notes why each edit alone is harmless and include in demo_i.py a check that applying only one of the two edits keeps the demo passing if that is easy to show. Prefer code that earlier seeders have not touched: fsic/tools.py (model_to_dataframe / linker_to_dataframes, used by to_dataframe), fsic/core/interfaces.py (PeriodIter, iter_periods, ModelInterface.__init__, get_closest_match, the values property), fsic/exceptions.py, fsic/functions.py, the class templates and build_model in fsic/parser.py (as far as the existing tests allow), fsic/extensions/common.py (ProgressBarMixin, __dir__) and the interplay between BaseLinker and the mixins - but only where that code takes part in the property. Avoid the ideas already used in earlier rounds: stale caches across copy()/reindex(), NumPy error state or warnings filters, shared caller arrays, class-level shared lists, falsy labels, arguments not forwarded by solve_period, moving checks around the offset copy.'''
 if rnd == '4':
     EXTRA = '''\n\nSTYLE FOR THIS ROUND: small, realistic slips - each change is a ONE-TO-THREE-LINE edit of the kind that survives code review (a wrong variable of two similar ones, `<` for `<=`, a condition that forgets one case, an argument not passed on, a default changed, the wrong one of two lists, an early return, an index off by one, `is` for `==`, a swallowed exception, a value computed before instead of after a step). Put each of the six in a DIFFERENT function, and spread them over every source file that takes part in the property. The existing test suite must still pass for each, so aim at the behaviour the suite does not pin down.'''
 print(f"""You are working on a scratch git worktree of the Python library ChrisThoung/fsic (a small macroeconomic modelling library: equation-script parser that generates model classes, plus a per-period Gauss-Seidel solver). Your worktree is {wt}. Work ONLY inside {wt} and {out}. Never read or touch /repo or /verif (they are off limits), and do not look for other people's work elsewhere on the disk.
